@@ -98,14 +98,20 @@ pub struct Fiber {
 
 #[cfg(laythe_verif)]
 impl Fiber {
-  /// verification hook: (operand depth above the frame's slot 0, active handlers, frames,
+  /// verification hook: (operand depth above the frame's slot 0, active handlers of this frame, frames,
   /// slots left before the end of the reserved stack)
   pub fn verif_probe(&self) -> (isize, usize, usize, isize) {
     unsafe {
       let depth = self.stack_top.offset_from(self.stack_start());
       let end = self.stack.as_ptr().add(self.stack.cap());
       let left = end.offset_from(self.stack_top as *const Value);
-      (depth, self.exception_handlers.len(), self.frames.len(), left)
+      let frames = self.frames.len();
+      let own = self
+        .exception_handlers
+        .iter()
+        .filter(|h| h.call_frame_depth() == frames)
+        .count();
+      (depth, own, frames, left)
     }
   }
 }
